@@ -7,6 +7,7 @@ the next stage (groupTuple() arrival order)."""
 from __future__ import annotations
 
 import os
+import shutil
 
 import numpy as np
 
@@ -201,13 +202,46 @@ def screen_file_digest(path):
 
 # ------------------------------------------------------------------ processes
 
+# fault `leftover.*`: the output path of a step is not always free.  An earlier attempt of the same step (killed, or run
+# with other inputs before a parameter was corrected) may have left an empty file, a truncated / garbage file or a
+# complete but STALE result there.  A step must produce its own output regardless.
+LEFTOVERS = dict(rnd=None, rate=0.12, seen={}, fired={})
+
+
+def arm_leftovers(seed):
+    import random as _random
+
+    LEFTOVERS.update(rnd=_random.Random(h64("leftover", seed)), seen={}, fired={})
+
+
+def _leftover(out_path, kind):
+    rnd = LEFTOVERS["rnd"]
+    if rnd is None or os.path.exists(out_path) or rnd.random() >= LEFTOVERS["rate"]:
+        return
+    earlier = [p for p in LEFTOVERS["seen"].get(kind, []) if os.path.exists(p)]
+    mode = rnd.choice(["empty", "garbage", "stale", "stale"] if earlier else ["empty", "garbage"])
+    if mode == "empty":
+        open(out_path, "wb").close()
+    elif mode == "garbage":
+        with open(out_path, "wb") as f:
+            f.write(bytes(rnd.randrange(256) for _ in range(rnd.choice([1, 7, 512]))))
+    else:
+        shutil.copyfile(rnd.choice(earlier), out_path)
+    LEFTOVERS["fired"]["leftover." + mode] = LEFTOVERS["fired"].get("leftover." + mode, 0) + 1
+
+
+def _produced(out_path, kind):
+    LEFTOVERS["seen"].setdefault(kind, []).append(out_path)
+
 
 def p_train(screen_path, out_path, *, model, model_params, n_chains, chain_index, n_samples, n_burnin, thin, seed, entropy):
     argv = ["--data", screen_path, "--model", model, "--output", out_path, "--n-samples", n_samples,
             "--n-burnin", n_burnin, "--thin", thin, "--n-chains", n_chains, "--chain-index", chain_index, "--seed", seed]
     for k, v in model_params.items():
         argv += ["--model-param", f"{k}={v}"]
+    _leftover(out_path, "train")
     launch.run_cli("train_model", argv, entropy=entropy)
+    _produced(out_path, "train")
     return out_path
 
 
@@ -216,7 +250,9 @@ def p_distance(screen_path, theta_paths, out_path, *, n_chunks, chunk_index, met
         "--distance-metric", metric, "--n-chunks", n_chunks, "--chunk-index", chunk_index, "--output", out_path]
     for k, v in (metric_params or {}).items():
         argv += ["--distance-metric-param", f"{k}={v}"]
+    _leftover(out_path, "distance")
     launch.run_cli("calculate_distance_matrix", argv, entropy=entropy)
+    _produced(out_path, "distance")
     return out_path
 
 
@@ -230,7 +266,9 @@ def p_scores(screen_path, theta_paths, dist_paths, out_path, *, n_chunks, chunk_
         argv += ["--batch-plate-ids"] + list(batch)
     if seed is not None:
         argv += ["--seed", seed]
+    _leftover(out_path, "scores")
     launch.run_cli("calculate_scores", argv, entropy=entropy)
+    _produced(out_path, "scores")
     return out_path
 
 
@@ -244,13 +282,17 @@ def p_select(screen_path, score_paths, out_path, *, policy=None, policy_params=N
         argv += ["--batch-plate-id"] + list(batch)
     if seed is not None:
         argv += ["--seed", seed]
+    _leftover(out_path, "select")
     launch.run_cli("select_next_plate", argv, entropy=entropy)
+    _produced(out_path, "select")
     with open(out_path) as f:
         return int(f.read().strip())
 
 
 def p_reveal(screen_path, out_path, plate_ids, entropy=0):
+    _leftover(out_path, "reveal")
     launch.run_cli("reveal_plate", ["--screen", screen_path, "--output", out_path, "--plate-id"] + list(plate_ids), entropy=entropy)
+    _produced(out_path, "reveal")
     return out_path
 
 
@@ -258,7 +300,9 @@ def p_evaluate(screen_path, theta_paths, out_path, seed=None, entropy=0):
     argv = ["--screen", screen_path, "--thetas"] + list(theta_paths) + ["--output", out_path]
     if seed is not None:
         argv += ["--seed", seed]
+    _leftover(out_path, "evaluate")
     launch.run_cli("evaluate_model", argv, entropy=entropy)
+    _produced(out_path, "evaluate")
     return out_path
 
 
